@@ -234,7 +234,7 @@ func MixInChild(c MixCfg) MixResult {
 		panic("harness: c19: " + err.Error())
 	}
 	req, _ := json.Marshal(c)
-	ctx, cancel := context.WithTimeout(context.Background(), 8*time.Second)
+	ctx, cancel := context.WithTimeout(context.Background(), 5*time.Second)
 	defer cancel()
 	cmd := exec.CommandContext(ctx, self, "-c19-mix")
 	cmd.Stdin = bytes.NewReader(req)
@@ -242,7 +242,7 @@ func MixInChild(c MixCfg) MixResult {
 	cmd.Stdout, cmd.Stderr = &so, &se
 	if err := cmd.Run(); err != nil {
 		if ctx.Err() != nil {
-			return dead("did not finish within 8 s")
+			return dead("did not finish within 5 s")
 		}
 		msg := se.String()
 		if i := strings.Index(msg, "fatal error:"); i >= 0 {
